@@ -8,10 +8,12 @@ Proved (all inputs):
     `${e}` are alternatives of target_with_star_atom with ctx=Store, and assignment / for / with-as / comprehension targets all go
     through star_target(s);
   * SEARCH_PATH lexemes are exactly the documented backtick form (E3);
-NOT proved: the builder bodies (load_attribute_chain, xonsh_call, expand_env_name, expand_env_expr, expand_search_path, handle_proc,
-proc_inject, proc_pyexpr, expand_help) build ast nodes through **kwargs and helper closures outside the executor's subset; what
-they return is compared with the documented translation by the bounded stand-in only.
-Assumed: the written-out translation parses to that tree in context (C01).  Bounded: 14 constructs x 40 contexts vs ast.parse of
+  * the builder bodies (E1, from their real source; the helpers load_attribute_chain / xonsh_call are executed inline): the tree
+    returned by expand_env_name / expand_env_expr / expand_search_path / proc_pyexpr / handle_proc / proc_inject / macro_call /
+    handle_with_macro_stmt / expand_help IS CPython's own parse of the documented translation text (spec function is_translation:
+    `__xonsh__.env[S0]`, `__xonsh__.env[str(H0)]`, `__xonsh__.pathsearch(S0)`, `__xonsh__.<method>(*A0)`, `__xonsh__.help(H0)` ...),
+    the context handed in (Load/Store) is the one stored, every built node carries the construct's four positions.
+Assumed: the written-out translation parses to that tree in context (C01); elements of list arguments are distinct objects.  Bounded: 14 constructs x 40 contexts vs ast.parse of
 the program with the translation written out (positions ignored; span of the construct node checked).
 """
 from __future__ import annotations
